@@ -8,7 +8,7 @@
 #include "cJSON_Utils.h"
 #include <math.h>
 
-static FILE *recf; static long rec_n, by[8];
+static FILE *recf; static long rec_n, by[8], shared_pairs;
 static void viol(const char *prop, const char *fmt, ...)
 {
     char msg[900]; va_list ap;
@@ -85,6 +85,10 @@ static void do_lookup(const jv *v)
     wantci = (cip->n == 1 && jv_int(cip->e[0]) == -1) ? NULL : node_at(doc, cip);
     if (got != want) viol("C15", "GetPointerCaseSensitive(\"%s\") returns %s, RFC 6901 designates %s", p, got ? "another node" : "NULL", want ? "a node" : "nothing");
     else if (gotci != wantci) VD.drift++;     /* case-insensitive variant: modelled, carries no property */
+    /* array elements that kept the key of an earlier life (detached from an object, added by a patch): arrays are indexed, never searched by name */
+    vb_stale_keys(doc, (int)(VD.cases & 3));
+    al_window(0); got = cJSONUtils_GetPointerCaseSensitive(doc, p);
+    if (got != want) viol("C15", "GetPointerCaseSensitive(\"%s\") on a document whose array elements carry left-over keys returns %s, RFC 6901 designates %s", p, got ? "another node" : "NULL", want ? "a node" : "nothing");
     (void)h;
     by[0]++;
 }
@@ -105,6 +109,15 @@ static void do_find(const jv *v)
               if (!got || strcmp(got, want)) viol("C15", "FindPointerFromObjectTo gives %s%s%s for a node below containers that carry ownership flags (constant key / reference); expected \"%s\"", got ? "\"" : "", got ? got : "NULL", got ? "\"" : "", want);
               cJSON_free(got); }
       } }
+    { int sch;
+      for (sch = 0; sch < 4; sch++) {
+          vb_stale_clear(doc); vb_stale_keys(doc, sch);
+          got = cJSONUtils_FindPointerFromObjectTo(doc, node);
+          if (!got || strcmp(got, want)) viol("C15", "FindPointerFromObjectTo gives %s%s%s for a node at or below an array element that carries a left-over key; the RFC 6901 pointer is \"%s\"", got ? "\"" : "", got ? got : "NULL", got ? "\"" : "", want);
+          else if (cJSONUtils_GetPointerCaseSensitive(doc, got) != node) viol("C15", "constructed pointer \"%s\" does not resolve back to the node (array elements with left-over keys)", got);
+          cJSON_free(got);
+      }
+      vb_stale_clear(doc); }
     memset(&other, 0, sizeof(other)); other.type = cJSON_NULL;
     got = cJSONUtils_FindPointerFromObjectTo(doc, &other); if (got) { viol("C15", "FindPointerFromObjectTo found a node that is not in the tree"); cJSON_free(got); }
     if (al_live != live) viol("C07 C15", "pointer construction leaks");
@@ -180,6 +193,15 @@ static void do_merge(const jv *v)
 
     cJSON_Delete(res); cJSON_Delete(patch);
     if (al_live != 0 || al_bad_free) viol("C07 C18", "%ld block(s) leaked / %ld invalid releases by merge patch application", al_live, al_bad_free);
+    /* target and patch as the construction API builds them with constant keys and string references: ownership bits in the
+     * type word of a member change nothing (null still deletes, objects still merge) */
+    cm_case_begin(); target = vb_build_flagged(jv_at(v, 1)); patch = vb_build_flagged(jv_at(v, 2));
+    al_window(0); res = cJSONUtils_MergePatchCaseSensitive(target, patch);
+    if (!res || !sem_equal(jv_at(v, 3), res)) { char *s = res ? cJSON_PrintUnformatted(res) : NULL; viol("C18", "target / patch with constant keys and string references: merge result differs from RFC 7396: %s", s ? s : "NULL"); cJSON_free(s); }
+    else if (!vb_wellformed(res, why, sizeof(why), 0)) viol("C18 C19", "merge result (flagged documents): %s", why);
+    cJSON_Delete(res); cJSON_Delete(patch);
+    if (al_bad_free || !cm_intact(why, sizeof(why))) viol("C07 C18", "merging documents with constant keys / string references released or modified borrowed memory");
+    if (al_live != 0) viol("C07 C18", "%ld block(s) leaked by merging documents with constant keys / string references", al_live);
     by[6]++;
 }
 static void do_pair(const jv *v)
@@ -234,6 +256,33 @@ static void do_pair(const jv *v)
         cJSON_Delete(from); cJSON_Delete(to);
         if (!cm_intact(why, sizeof(why))) viol("C07", "patch generation modified borrowed memory (constant keys / referenced strings)");
         if (al_live != 0 || al_bad_free) viol("C07 C17 C18", "%ld block(s) leaked / %ld invalid releases by patch generation on documents with ownership flags", al_live, al_bad_free);
+    }
+    /* documents whose nested containers are shared through reference nodes (cJSON_AddItemReferenceToObject): generation only reads and
+     * sorts; the owners keep their value and stay well-formed */
+    {
+        cJSON *mp, *res, *copy2; int i;
+        cm_case_begin(); from = vb_build_shared(jf); to = vb_build_shared(jt);
+        if (vb_pool_count()) {
+            shared_pairs++;
+            p = cJSONUtils_GeneratePatchesCaseSensitive(from, to);
+            if (!p || (p->child == NULL) != (eq != 0)) viol("C17", "with nested containers held through reference nodes the generated patch is %s although the documents are %s", (p && p->child) ? "not empty" : "empty", eq ? "equal" : "different");
+            else { copy2 = cJSON_Duplicate(from, 1); st = cJSONUtils_ApplyPatchesCaseSensitive(copy2, p);
+                   if (st != 0 || !sem_equal(jt, copy2)) { char *s = cJSON_PrintUnformatted(p); viol("C17", "documents with nested containers held through reference nodes: applying the generated patch %s to 'from' does not give 'to'", s ? s : "?"); cJSON_free(s); }
+                   cJSON_Delete(copy2); }
+            cJSON_Delete(p);
+            if (!tonull) {
+                mp = cJSONUtils_GenerateMergePatchCaseSensitive(from, to);
+                copy2 = cJSON_Duplicate(from, 1); res = mp ? cJSONUtils_MergePatchCaseSensitive(copy2, mp) : copy2;
+                if (!res || !sem_equal(jt, res)) viol("C18", "documents with nested containers held through reference nodes: applying the generated merge patch to 'from' does not give 'to'");
+                cJSON_Delete(res); cJSON_Delete(mp);
+            }
+            if (!sem_equal(jf, from) || !sem_equal(jt, to)) viol("C17 C18", "generation changed the value of a document whose nested containers are held through reference nodes");
+            for (i = 0; i < vb_pool_count(); i++)
+                if (!vb_wellformed(vb_pool_owner(i), why, sizeof(why), 0) || !sem_equal(vb_pool_value(i), vb_pool_owner(i))) { viol("C07 C17 C19", "generation damaged a container that the document only refers to (%s)", why[0] ? why : "value changed"); break; }
+        }
+        cJSON_Delete(from); cJSON_Delete(to); vb_pool_release();
+        if (!cm_intact(why, sizeof(why))) viol("C07", "patch generation modified borrowed memory (constant keys / referenced strings)");
+        if (al_live != 0 || al_bad_free) viol("C07 C17 C18", "%ld block(s) leaked / %ld invalid releases by patch generation on documents with shared containers", al_live, al_bad_free);
     }
     by[7]++;
 }
@@ -306,7 +355,7 @@ static void do_sort(const jv *v)
 int vd_utils_main(int argc, char **argv);
 int vd_utils_main(int argc, char **argv)
 {
-    char *line = NULL; size_t cap = 0; ssize_t len; const char *stats = NULL; int k; char extra[300]; cJSON_Hooks hooks;
+    char *line = NULL; size_t cap = 0; ssize_t len; const char *stats = NULL; int k; char extra[400]; cJSON_Hooks hooks;
     for (k = 0; k < argc; k++) { if (!strcmp(argv[k], "--stats") && k + 1 < argc) stats = argv[k + 1]; if (!strcmp(argv[k], "--record") && k + 1 < argc) recf = fopen(argv[k + 1], "w"); }
     hooks.malloc_fn = al_malloc; hooks.free_fn = al_free; cJSON_InitHooks(&hooks);
     vd_install_handlers();
@@ -331,8 +380,8 @@ int vd_utils_main(int argc, char **argv)
         vd_tick(); VD.curline = NULL; free(copy);
     }
     if (recf) fclose(recf);
-    snprintf(extra, sizeof(extra), "\"lookups\": %ld, \"constructions\": %ld, \"patch_applications\": %ld, \"must_succeed\": %ld, \"must_fail\": %ld, \"open\": %ld, \"merges\": %ld, \"generation_pairs\": %ld, \"recorded_outputs\": %ld, \"other_property_violations\": %ld",
-             by[0], by[1], by[2], by[3], by[4], by[5], by[6], by[7], rec_n, VD.by_kind[0]);
+    snprintf(extra, sizeof(extra), "\"lookups\": %ld, \"constructions\": %ld, \"patch_applications\": %ld, \"must_succeed\": %ld, \"must_fail\": %ld, \"open\": %ld, \"merges\": %ld, \"generation_pairs\": %ld, \"recorded_outputs\": %ld, \"pairs_with_shared_containers\": %ld, \"other_property_violations\": %ld",
+             by[0], by[1], by[2], by[3], by[4], by[5], by[6], by[7], rec_n, shared_pairs, VD.by_kind[0]);
     if (stats) vd_write_stats(stats, extra);
     return VD.violations ? 1 : 0;
 }
